@@ -22,18 +22,23 @@ Record behaviour := mkBeh {
   (** the templates DataSet::getData(T &value, offset) / setData(const T &value, offset) (include/nix/DataSet.hpp) hand an EMPTY
       count to ioRead / ioWrite for a scalar value and an empty offset (setData: for every offset); a DataView reads an
       empty count as "the whole window" and transfers window-many elements from / to the address of one scalar *)
-  scalar_template_empty_count : bool
+  scalar_template_empty_count : bool;
+  (** the template DataSet::getData(T &value, count, offset) hands an EMPTY count on after resizing the value to rank 0 (one
+      element: scalar, nix::NDArray); a DataView reads the empty count as "the whole window" *)
+  tget3_empty_count : bool
 }.
 
-Definition code_today : behaviour := mkBeh true true true true true true.
-Definition repaired : behaviour := mkBeh false false false false false false.
-Definition repaired_except_pinned : behaviour := mkBeh false false false false true false.
+Definition code_today : behaviour := mkBeh true true true true true true true.
+Definition repaired : behaviour := mkBeh false false false false false false false.
+Definition repaired_except_pinned : behaviour := mkBeh false false false false true false false.
 (** /repo at e3eed7c: the C17 patches are in, the scalar templates are not repaired yet *)
-Definition repo_e3eed7c : behaviour := mkBeh false false false false true true.
+Definition repo_e3eed7c : behaviour := mkBeh false false false false true true true.
+(** /repo at dc7d826: the scalar templates are repaired (d3b5c46), the three-argument read template is not *)
+Definition repo_dc7d826 : behaviour := mkBeh false false false false true false true.
 
 (** THE SWITCH: which behaviour the library under test has; the extracted model driver replays this one.
-    Set back to [repaired_except_pinned] once notes/proposed-fixes/C16-dataview-scalar-template.patch has landed. *)
-Definition current_behaviour : behaviour := repaired_except_pinned.
+    Set back to [repaired_except_pinned] once notes/proposed-fixes/C16-dataview-template-empty-count.patch has landed. *)
+Definition current_behaviour : behaviour := repo_dc7d826.
 
 (** the switches that a patch can turn off *)
 Definition slices_repaired (B : behaviour) : Prop :=
